@@ -34,6 +34,10 @@ CONSTANTS
   FixDel = TRUE
   FixInit = TRUE
   FixLate = TRUE
+  CloseCheckOutside = FALSE
+  StopDeletes = FALSE
+  Stalls = FALSE
+  Linger = FALSE
   PreAcked = TRUE
   Bursts = FALSE
   Sync = FALSE
